@@ -285,7 +285,12 @@ pub fn worker_check(state: &Json, ctx: &mut Ctx) {
     }
 }
 
-pub fn description_states(thorough: bool, seeds: u64) -> (Vec<Json>, Vec<(String, u64, u64, bool)>) {
+/// compact JSON line of a state
+pub fn js(v: Json) -> String {
+    serde_json::to_string(&v).unwrap()
+}
+
+pub fn description_states(thorough: bool, seeds: u64) -> (Vec<String>, Vec<(String, u64, u64, bool)>) {
     let mut states = vec![];
     let mut info = vec![];
     // D-graph
@@ -293,7 +298,7 @@ pub fn description_states(thorough: bool, seeds: u64) -> (Vec<Json>, Vec<(String
     let (all, tr, complete) = enumerate(&g, g.max_edges as u32, 3_000_000);
     info.push((g.name(), all.len() as u64, tr, complete));
     for (_, s) in &all {
-        states.push(json!({"prog": serde_json::to_value(s.program()).unwrap(), "seeds": seeds}));
+        states.push(js(json!({"prog": serde_json::to_value(s.program()).unwrap(), "seeds": seeds})));
     }
     // D-arms at the named-variant and root positions
     let a = DArms { max_depth: 2 };
@@ -301,7 +306,7 @@ pub fn description_states(thorough: bool, seeds: u64) -> (Vec<Json>, Vec<(String
     info.push((a.name(), all.len() as u64, tr, complete));
     for (_, s) in &all {
         for pos in [Position::NamedVariant, Position::TupleStruct] {
-            states.push(json!({"prog": serde_json::to_value(arms_program(&s.expr, pos, false, "N")).unwrap(), "seeds": seeds}));
+            states.push(js(json!({"prog": serde_json::to_value(arms_program(&s.expr, pos, false, "N")).unwrap(), "seeds": seeds})));
         }
     }
     // D-rec: one input per shortcut of the recursion guard - an enum whose one recursive variant holds
@@ -334,7 +339,7 @@ pub fn description_states(thorough: bool, seeds: u64) -> (Vec<Json>, Vec<(String
                     defs: vec![tree, forest],
                     roots: vec![Ty::Named(1, vec![])],
                 };
-                states.push(json!({"prog": serde_json::to_value(prog).unwrap(), "seeds": seeds.max(if thorough { 64 } else { 24 })}));
+                states.push(js(json!({"prog": serde_json::to_value(prog).unwrap(), "seeds": seeds.max(if thorough { 64 } else { 24 })})));
                 rec += 1;
             }
         }
@@ -347,7 +352,7 @@ pub fn description_states(thorough: bool, seeds: u64) -> (Vec<Json>, Vec<(String
             defs: vec![],
             roots: vec![Ty::Array(b(Ty::Array(b(Ty::Prim(p)), 32)), 32)],
         };
-        states.push(json!({"prog": serde_json::to_value(prog).unwrap(), "seeds": seeds}));
+        states.push(js(json!({"prog": serde_json::to_value(prog).unwrap(), "seeds": seeds})));
         width += 1;
     }
     info.push(("D-width(1024 values of each integer kind per seed)".into(), width, width, true));
@@ -356,7 +361,7 @@ pub fn description_states(thorough: bool, seeds: u64) -> (Vec<Json>, Vec<(String
     let step = 16;
     let mut lo = 0;
     while lo < n {
-        states.push(json!({"polkadot": [lo, (lo + step).min(n)], "seeds": seeds}));
+        states.push(js(json!({"polkadot": [lo, (lo + step).min(n)], "seeds": seeds})));
         lo += step;
     }
     info.push(("D-chain(polkadot, every id)".into(), n, n, true));
